@@ -974,6 +974,8 @@ func (c *c11) caseDuplex(n int, bigP float64) {
 				return
 			}
 			acts++
+			c.midMach = r
+			defer func() { c.midMach = nil }()
 			if !pending(r) {
 				if c.write(r, c.randMsg(c.pickSize(sent[1-d], bigP))) == "ok" {
 					sent[1-d]++
@@ -988,13 +990,11 @@ func (c *c11) caseDuplex(n int, bigP float64) {
 				c.flush(r, c.pickBudget(r), c.rng.Intn(3) == 0)
 			}
 		}
-		c.midMach = r
 		if c.rng.Intn(3) == 0 {
 			c.readSplit(r, w.out)
 		} else {
 			c.read(r, w.out)
 		}
-		c.midMach = nil
 		w.out.frag, w.out.hook = nil, nil
 		recvd[d]++
 		if pending(r) {
@@ -1478,6 +1478,37 @@ type connRes struct {
 	err  error
 }
 
+// connWriteOp performs Conn.Write(msg) with the given writer budget and prints
+// the `cwrite` line (record lengths and content ids of the chunks).
+func (c *c11) connWriteOp(name string, w *Conn, p *vpipe, msg []byte, budget int) error {
+	n := len(msg)
+	p.budget = budget
+	var wn int
+	var werr error
+	if guard(func() { wn, werr = w.Write(msg) }) {
+		werr = errors.New("verif: panic in Conn.Write")
+	}
+	p.budget = -1
+	var chunks []string
+	for o := 0; o < n || o == 0; o += 65535 {
+		e := o + 65535
+		if e > n {
+			e = n
+		}
+		chunks = append(chunks, fmt.Sprintf("%d:%s", e-o, valOf(msg[o:e])))
+		if n == 0 {
+			break
+		}
+	}
+	bs := "inf"
+	if budget >= 0 {
+		bs = strconv.Itoa(budget)
+	}
+	c.pf("cwrite %s budget=%s chunks=%s => n=%d err=%s pl=%d", name, bs, strings.Join(chunks, ","), wn, classify(werr), len(p.buf))
+	c.stats["cwrite_"+classify(werr)]++
+	return werr
+}
+
 // caseConn runs the real Dial and Listener.doHandshake against each other over
 // blocking pipes, optionally damaging the byte stream in flight.
 func (c *c11) caseConn(tamper string, wrongKey bool) {
@@ -1602,6 +1633,8 @@ func (c *c11) caseConn(tamper string, wrongKey bool) {
 	if d.err == nil && a.err == nil {
 		i2r.block, r2i.block = false, false
 		// Conn.Write / Conn.Read including chunking above 65535 bytes
+		alive := true
+		noBudget := c.rng.Intn(2) == 0 // half of the sessions stay usable for the duplex part
 		for k := 0; k < 3; k++ {
 			w, r, p := d.conn, a.conn, i2r
 			name := "i"
@@ -1615,33 +1648,13 @@ func (c *c11) caseConn(tamper string, wrongKey bool) {
 			}
 			msg := c.randMsg(n)
 			budget := -1
-			if c.rng.Intn(2) == 0 {
+			if !noBudget && c.rng.Intn(2) == 0 {
 				budget = c.rng.Intn(n + 100)
 			}
-			p.budget = budget
-			var wn int
-			var werr error
-			if guard(func() { wn, werr = w.Write(msg) }) {
-				werr = errors.New("verif: panic in Conn.Write")
+			werr := c.connWriteOp(name, w, p, msg, budget)
+			if werr != nil {
+				alive = false
 			}
-			p.budget = -1
-			var chunks []string
-			for o := 0; o < n || o == 0; o += 65535 {
-				e := o + 65535
-				if e > n {
-					e = n
-				}
-				chunks = append(chunks, fmt.Sprintf("%d:%s", e-o, valOf(msg[o:e])))
-				if n == 0 {
-					break
-				}
-			}
-			bs := "inf"
-			if budget >= 0 {
-				bs = strconv.Itoa(budget)
-			}
-			c.pf("cwrite %s budget=%s chunks=%s => n=%d err=%s pl=%d", name, bs, strings.Join(chunks, ","), wn, classify(werr), len(p.buf))
-			c.stats["cwrite_"+classify(werr)]++
 			if werr != nil {
 				break
 			}
@@ -1672,6 +1685,88 @@ func (c *c11) caseConn(tamper string, wrongKey bool) {
 				same = 1
 			}
 			c.pf("cread %s want=%d => got=%d same=%d err=%s", name, n, len(got), same, classify(rerr))
+		}
+		// full duplex on the Conn: while one side receives a (chunked) message record by
+		// record through ReadNextHeader/ReadNextBody in small fragments, the same Conn
+		// writes a chunked message of its own.
+		for k := 0; alive && k < 2; k++ {
+			wa, ra, pa, na := d.conn, a.conn, i2r, "i" // sender of the inbound message
+			pb, nb := r2i, "r"                          // the reading side writes here meanwhile
+			if k%2 == 1 {
+				wa, ra, pa, na = a.conn, d.conn, r2i, "r"
+				pb, nb = i2r, "i"
+			}
+			n1 := []int{1, 17, 65535, 65536, 70000 + c.rng.Intn(70000)}[c.rng.Intn(5)]
+			msg1 := c.randMsg(n1)
+			if c.connWriteOp(na, wa, pa, msg1, -1) != nil {
+				break
+			}
+			n2 := []int{3, 65536, 66000 + c.rng.Intn(70000), 131071}[c.rng.Intn(4)]
+			msg2 := c.randMsg(n2)
+			wrote, werr2 := false, error(nil)
+			fire := 1 + c.rng.Intn(3)
+			pa.frag = c.duplexFrag()
+			pa.hook = func() {
+				fire--
+				if fire == 0 && !wrote {
+					wrote = true
+					budget := -1
+					if c.rng.Intn(4) == 0 {
+						budget = c.rng.Intn(n2 + 100)
+					}
+					werr2 = c.connWriteOp(nb, ra, pb, msg2, budget)
+				}
+			}
+			for o := 0; o < n1 || o == 0; o += 65535 {
+				var pl uint32
+				var body []byte
+				var rerr error
+				if guard(func() {
+					pl, rerr = ra.ReadNextHeader()
+					if rerr == nil {
+						body, rerr = ra.ReadNextBody(make([]byte, pl))
+					}
+				}) {
+					rerr = errors.New("verif: panic in ReadNext")
+				}
+				if rerr != nil {
+					c.pf("cnext %s => %s", na, classify(rerr))
+					alive = false
+					break
+				}
+				c.pf("cnext %s => ok len=%d val=%s", na, len(body), valOf(body))
+			}
+			pa.frag, pa.hook = nil, nil
+			if !alive {
+				break
+			}
+			if !wrote {
+				werr2 = c.connWriteOp(nb, ra, pb, msg2, -1)
+			}
+			if werr2 != nil {
+				alive = false
+				break
+			}
+			// the other side collects msg2 record by record as well
+			for o := 0; o < n2 || o == 0; o += 65535 {
+				var pl uint32
+				var body []byte
+				var rerr error
+				if guard(func() {
+					pl, rerr = wa.ReadNextHeader()
+					if rerr == nil {
+						body, rerr = wa.ReadNextBody(make([]byte, pl))
+					}
+				}) {
+					rerr = errors.New("verif: panic in ReadNext")
+				}
+				if rerr != nil {
+					c.pf("cnext %s => %s", nb, classify(rerr))
+					alive = false
+					break
+				}
+				c.pf("cnext %s => ok len=%d val=%s", nb, len(body), valOf(body))
+			}
 		}
 	}
 	c.endCase()
@@ -1720,7 +1815,7 @@ func TestVerifC11(t *testing.T) {
 		c.caseHSOrder()
 	}
 	// Dial / doHandshake / Conn
-	for i := 0; i < rep(8, 100); i++ {
+	for i := 0; i < rep(14, 120); i++ {
 		c.caseConn("none", false)
 	}
 	for i := 0; i < rep(4, 60); i++ {
@@ -1766,6 +1861,11 @@ func TestVerifC11(t *testing.T) {
 	for i := 0; i < rep(4, 60); i++ {
 		c.caseDesync()
 	}
+	// full duplex: reads fragmented, the reading machine writes in between
+	for i := 0; i < rep(3, 16); i++ {
+		c.caseDuplex(rep(250, 900)+c.rng.Intn(100), 0.004)
+	}
+	c.caseDuplex(rep(1040, 2600), 0.002)
 	// long streams crossing at least three rotations in both directions
 	c.caseStream(1520+c.rng.Intn(60), 0.012)
 	c.caseStream(1510+c.rng.Intn(600), 0.004)
